@@ -1092,23 +1092,51 @@ func (d *Data) addSubvolumes(layer *layerT, subvolumes *subvolumesT, batchsize i
 	}
 }
 
+// zExtents returns the smallest and largest block z of the ROI as stored at the version of the
+// context.  The instance's MinZ/MaxZ properties follow the most recent write at any version, so a
+// committed version partitioned with them changed whenever a descendant's ROI was posted or deleted.
+func (d *Data) zExtents(ctx storage.Context) (minZ, maxZ int32, err error) {
+	vctx, versioned := ctx.(*datastore.VersionedCtx)
+	if !versioned {
+		return d.MinZ, d.MaxZ, nil
+	}
+	var spans []dvid.Span
+	if spans, err = GetSpans(vctx); err != nil {
+		return
+	}
+	minZ, maxZ = math.MaxInt32, math.MinInt32
+	for _, span := range spans {
+		if span[0] < minZ {
+			minZ = span[0]
+		}
+		if span[0] > maxZ {
+			maxZ = span[0]
+		}
+	}
+	return
+}
+
 // Partition returns JSON of differently sized subvolumes that attempt to distribute
 // the number of active blocks per subvolume.
 func (d *Data) Partition(ctx storage.Context, batchsize int32) ([]byte, error) {
 	// Partition Z as perfectly as we can.
-	dz := d.MaxZ - d.MinZ + 1
+	minZ, maxZ, err := d.zExtents(ctx)
+	if err != nil {
+		return nil, err
+	}
+	dz := maxZ - minZ + 1
 	zleft := dz % batchsize
 
 	// Adjust Z range
-	layerBegZ := d.MinZ
+	layerBegZ := minZ
 	layerEndZ := layerBegZ + batchsize - 1
 
 	// Iterate through blocks in ascending Z, calculating active extents and subvolume coverage.
 	// Keep track of current layer = batchsize of blocks in Z.
 	var subvolumes subvolumesT
 	subvolumes.Subvolumes = []subvolumeT{}
-	subvolumes.ROI.MinChunk[2] = d.MinZ
-	subvolumes.ROI.MaxChunk[2] = d.MaxZ
+	subvolumes.ROI.MinChunk[2] = minZ
+	subvolumes.ROI.MaxChunk[2] = maxZ
 
 	layer := d.newLayer(layerBegZ, layerEndZ)
 
@@ -1237,20 +1265,24 @@ func (d *Data) addSubvolumesGrid(layer *layerT, subvolumes *subvolumesT, batchsi
 // SimplePartition returns JSON of identically sized subvolumes arranged over ROI
 func (d *Data) SimplePartition(ctx storage.Context, batchsize int32) ([]byte, error) {
 	// Partition Z as perfectly as we can.
-	dz := d.MaxZ - d.MinZ + 1
+	minZ, maxZ, err := d.zExtents(ctx)
+	if err != nil {
+		return nil, err
+	}
+	dz := maxZ - minZ + 1
 	zleft := dz % batchsize
 
 	// Adjust Z range
 	addZtoTop := zleft / 2
-	layerBegZ := d.MinZ - addZtoTop
+	layerBegZ := minZ - addZtoTop
 	layerEndZ := layerBegZ + batchsize - 1
 
 	// Iterate through blocks in ascending Z, calculating active extents and subvolume coverage.
 	// Keep track of current layer = batchsize of blocks in Z.
 	var subvolumes subvolumesT
 	subvolumes.Subvolumes = []subvolumeT{}
-	subvolumes.ROI.MinChunk[2] = d.MinZ
-	subvolumes.ROI.MaxChunk[2] = d.MaxZ
+	subvolumes.ROI.MinChunk[2] = minZ
+	subvolumes.ROI.MaxChunk[2] = maxZ
 
 	layer := d.newLayer(layerBegZ, layerEndZ)
 
